@@ -169,7 +169,7 @@ pub fn random_rev(rng: &mut Rng) -> RevOutcome {
 
 pub fn random_cleanup(rng: &mut Rng) -> CleanupSpec {
     CleanupSpec {
-        pending: *rng.pick(&[PendingSpec::NoneFfff, PendingSpec::NoneFfff, PendingSpec::NoBmp, PendingSpec::Dangling, PendingSpec::Dangling, PendingSpec::DanglingAt(0), PendingSpec::DanglingAt(9999), PendingSpec::DanglingWithList]),
+        pending: *rng.pick(&[PendingSpec::NoneFfff, PendingSpec::NoneFfff, PendingSpec::NoBmp, PendingSpec::Dangling, PendingSpec::Dangling, PendingSpec::DanglingAt(0), PendingSpec::DanglingAt(9999), PendingSpec::DanglingWithList, PendingSpec::DanglingWithOtherList]),
         pending_pre: if rng.pct(20) { 1 + rng.below(2) as u8 } else { 0 },
         cancel: RevOutcome {
             pre: rng.below(3) as u8,
@@ -1064,7 +1064,7 @@ impl Check for ClientCheck {
             }
             "C19" => {
                 // (own op commit|cancel) x (other token open or not) x pending form x 256 eod outcomes (+completion)
-                let n = 2 * 2 * 2 * 6 * 257 * 2;
+                let n = 2 * 2 * 2 * 7 * 257 * 2;
                 fams.push(Family::new("cleanup_grid_all_eod_outcomes", n, true, |mut i, _| {
                     let commit = i % 2 == 0;
                     i /= 2;
@@ -1073,8 +1073,8 @@ impl Check for ClientCheck {
                     i /= 2;
                     let other_open = i % 2 == 1;
                     i /= 2;
-                    let pending = [PendingSpec::NoneFfff, PendingSpec::NoBmp, PendingSpec::Dangling, PendingSpec::DanglingAt(0), PendingSpec::DanglingAt(9999), PendingSpec::DanglingWithList][(i % 6) as usize];
-                    i /= 6;
+                    let pending = [PendingSpec::NoneFfff, PendingSpec::NoBmp, PendingSpec::Dangling, PendingSpec::DanglingAt(0), PendingSpec::DanglingAt(9999), PendingSpec::DanglingWithList, PendingSpec::DanglingWithOtherList][(i % 7) as usize];
+                    i /= 7;
                     let noise = (i % 2) as u8;
                     i /= 2;
                     let end = if i == 256 { EndSpec::Completion } else { EndSpec::Abort(i as u8) };
@@ -1198,6 +1198,15 @@ impl Check for ClientCheck {
                 fams.push(Family::new("reservation_abort_with_currency_and_tlv", 4 * 256 * 2, true, |i, _| {
                     let mut p = abort_exchange_plan(1, (i % 256) as u8, ((i / 256) % 2) as u8, 0);
                     p.pt.abort_extras = 1 + (i / 512) as u8;
+                    p
+                }));
+                // the card-reading abort arrives late - after the configured time, still inside the 2 s of grace -
+                // or with the configured time at its extremes: its code still counts (only 6C means "no card")
+                fams.push(Family::new("card_abort_late_and_timeout_extremes", 256 * 5, true, |i, _| {
+                    let code = (i % 256) as u8;
+                    let (tau, delay) = [(0u8, 0u64), (0, 1_500), (1, 1_700), (15, 16_200), (255, 0)][(i / 256) as usize];
+                    let mut p = ClientPlan::plain(vec![OpSpec::ReadCard { card: CardOutcome { pre: (i % 2) as u8, kind: CardKind::Abort(code), delay_ms: delay } }]);
+                    p.cfg.read_card_timeout = if i / 256 == 4 && i % 2 == 1 { 254 } else { tau };
                     p
                 }));
                 // the abort packet arrives in two pieces (after 1, 2, 3 bytes) with 0.8 s / 3 s in between
